@@ -74,6 +74,11 @@ CHECKS = {
   technique="runtime monitoring, metamorphic pair monitor: every program P is linted and executed next to decorated variants D(P) that differ only in ordinary comments and whitespace; the oracle compares diagnostic multisets (locations mapped back to token offsets) and, in the simulator, the debugger-snapshot trace, the log lines, the returned state and the reported error",
   text="Programs from the grammar-directed generator (type-blind, many diagnostics: lint half) and from the typed generator (executable: simulator half) are decorated: one comment of each style (#, //, /* */) in each gap between two tokens alone (small programs, exhaustive per program), random multi-gap decorations, and whitespace-only layouts (tight, tabs, CRLF, blank lines). Diagnostics apart from line/column, executed statements, variable values before every statement, logs, returned state and reported error must be identical.",
   note="A variant that no longer parses is outside the property and only counted. The simulator half executes the core language only (set/unset/log/if/switch/call/return on locals and req.http.*), not the whole state machine; comment text is drawn from a pool that cannot be read as an annotation."),
+ "C10": dict(
+  category="exploration", design_ref="DESIGN.md §4 C10",
+  technique="runtime monitoring of the real `falco test` binary (nothing of falco linked): generated test files whose verdicts are known by construction are run -json and plain, with and without --coverage, in several orders and one test at a time; monitors compare reported verdicts with constructed ones, exit status with verdicts, summary counts with result entries, and runs with each other",
+  text="Test files are generated from all 24 assert.* functions instantiated to hold and to fail (custom message, wrong argument types/counts, assertions as expressions), runtime errors, @skip/@tag/@suite/multi-@scope tests and side-effect/probe pairs over the testing.* state, against three fixed main VCLs. Every file is run by the built CLI: verdict and message class = constructed; exit status != 0 iff a test failed; passed+failed+skipped = result entries on the plain line and in the -json summary, assertion count = assertion calls executed; per-test (verdict, message, logs) identical across orders, subsets and with --coverage.",
+  note="Constructed verdicts trust the catalogue of ~65 call scenarios over the fixed main programs; @tag expectations come from the decision table in docs/testing.md. Differences between runs are reported only if they reproduce. Three genuine defects are pinned by falco's own tests and stay open (JSON summary.passes is assertion-level; --coverage evaluates if-expression conditions twice)."),
 }
 
 NOT_APPLICABLE = {}
